@@ -159,6 +159,11 @@ Definition append (o : ostream) (f : field) (s : str) : ostream :=
   let o3 := put_str o2 s in
   if f_left f then mkos (o_out o3) (o_width o3) false else o3.
 
+(** the default formats of the date, time and date_time fields *)
+Definition fmt_date : str := s_ "%F".
+Definition fmt_time : str := s_ "%T".
+Definition fmt_datetime : str := s_ "%F %T".
+
 Section WithStrftime.
 
 Variable strftime_ : str -> N -> str.
@@ -180,9 +185,9 @@ Definition format_datetime_pinned (o : ostream) (f : field) (default : str) (ts 
 Definition format_field (lookup : str -> str) (m : msg) (o : ostream) (f : field) : res ostream :=
   match f_type f with
   | FConstant => Ok (append o f (f_const f))
-  | FDate => format_datetime o f (s_ "%F") (timestamp m)
-  | FTime => format_datetime o f (s_ "%T") (timestamp m)
-  | FDateTime => format_datetime o f (s_ "%F %T") (timestamp m)
+  | FDate => format_datetime o f fmt_date (timestamp m)
+  | FTime => format_datetime o f fmt_time (timestamp m)
+  | FDateTime => format_datetime o f fmt_datetime (timestamp m)
   | FTimeMs => Ok (append o f (pad0 3 (dec_N (time_ms m))))
   | FTimeUs => Ok (append o f (pad0 6 (dec_N (time_us m))))
   | FPid => Ok (append o f (dec_Z (m_pid m)))
@@ -199,9 +204,9 @@ Definition format_field (lookup : str -> str) (m : msg) (o : ostream) (f : field
 
 Definition format_field_pinned (lookup : str -> str) (m : msg) (o : ostream) (f : field) : res ostream :=
   match f_type f with
-  | FDate => format_datetime_pinned o f (s_ "%F") (timestamp m)
-  | FTime => format_datetime_pinned o f (s_ "%T") (timestamp m)
-  | FDateTime => format_datetime_pinned o f (s_ "%F %T") (timestamp m)
+  | FDate => format_datetime_pinned o f fmt_date (timestamp m)
+  | FTime => format_datetime_pinned o f fmt_time (timestamp m)
+  | FDateTime => format_datetime_pinned o f fmt_datetime (timestamp m)
   | _ => format_field lookup m o f
   end.
 
@@ -245,6 +250,18 @@ Fixpoint run (w : world) (ops : list wop) : list (res str) * world :=
   | WMsg m a :: r =>
       let '(outs, w') := run w r in
       (format (x_def w) m (msg_chain (x_attr w) a) (w_global (x_attr w)) :: outs, w')
+  end.
+
+(** the same on the copies of the pinned functions (used to validate them
+    against the pinned tree: driver with C16_MODEL=pinned) *)
+Fixpoint run_pinned (w : world) (ops : list wop) : list (res str) * world :=
+  match ops with
+  | [] => ([], w)
+  | WC o :: r => let '(c, fs) := cstep (x_cr w, x_def w) o in run_pinned (mkw c fs (x_attr w)) r
+  | WA o :: r => run_pinned (mkw (x_cr w) (x_def w) (astep (x_attr w) o)) r
+  | WMsg m a :: r =>
+      let '(outs, w') := run_pinned w r in
+      (format_pinned (x_def w) m (msg_chain (x_attr w) a) (w_global (x_attr w)) :: outs, w')
   end.
 
 End WithStrftime.
